@@ -72,7 +72,7 @@ def build_files(bdir):
 
 # ------------------------------------------------------------------------------------------------ cases
 def frame_tok(f):
-    return "%d,%d,%s,%d,%d,%d,%d,%d" % (f["w"], f["h"], f["ty"], f["pad"], f["id"], f["hw"], f["trt"], f["thw"])
+    return "%d,%d,%s,%d,%d,%d,%d,%d" % (f["w"], f["h"], f["ty"], f["pad"], f["id"], f["hw"], f["trt"], f["thw"]) + (",z" if f.get("z") else "")
 
 
 def ext_of(kind):
@@ -196,15 +196,16 @@ TIFF_INV = ["NoErr", "NoCrash", "TypeOK", "OwnsItsFile", "Cursors", "InnerFollow
 
 
 def raw_consts(**kw):
-    c = dict(NDev=2, NPaths=3, MaxCycles=2, MaxAppends=2, PacketSizes="{1, 2, 3}", NScripts=5, MaxFaultAt=8, FIXED=1, MaxFd=5,
-             Ghost="TRUE", Export="FALSE")
+    c = dict(NDev=2, NPaths=3, MaxCycles=2, MaxAppends=2, PacketSizes="{1, 2, 3}", NScripts=5, MaxFaultAt=8, FIXED=1, SetRunning="TRUE", FIX_SET=1,
+             MaxFd=5, Ghost="TRUE", Export="FALSE")
     c.update({k: tla(v) for k, v in kw.items()})
     return c
 
 
 def tiff_consts(**kw):
     c = dict(NDev=1, NPaths=3, Kinds1='{"tiff", "sbs"}', MaxCycles=2, MaxAppends=2, MaxPacket=2, Real="FALSE", NKinds=2, NScripts=3,
-             MaxFaultAt=0, MaxDepth=4, FIX_TIFF=1, FIX_SBS=1, FIX_META=1, MaxFd=5, Ghost="TRUE", Export="FALSE")
+             MaxFaultAt=0, MaxDepth=4, FIX_TIFF=1, FIX_SBS=1, FIX_META=1, SetRunning="TRUE", FIX_SET=1, MaxFd=5, Ghost="TRUE",
+             Export="FALSE")
     c.update({k: tla(v) for k, v in kw.items()})
     return c
 
@@ -415,8 +416,15 @@ def tiff_acquisitions(case, ops):
             continue
         ret = g["ret"]["st"]
         failed = any(e["e"] in ("Open", "Flock", "Pwrite") and e["r"] < 0 for e in g["os"])
-        if o["op"] == "set" and ret == 2:
-            s["pid"], s["mid"] = o["pid"], o.get("mid")
+        if o["op"] == "set":
+            if g["ret"]["rc"] == 0:          # accepted; a running device stays Running and keeps writing the file named at start
+                s["pid"], s["mid"] = o["pid"], o.get("mid")
+                # the tiff writer puts the metadata on the first frame: settings accepted before it is written still count
+                # (tiff-json wrote metadata.json at start); TiffWriter.tla: fwant
+                if s["cur"] is not None and kind == "tiff" and not s["cur"]["frames"] and s["cur"]["clean"]:
+                    s["cur"]["meta"] = case["metas"].get(s["mid"]) if s["mid"] else None
+            elif s["cur"] is not None:       # rejected while running: the acquisition is over, its file is not judged
+                s["cur"]["clean"] = False
         elif o["op"] == "start":
             if ret == 3:
                 s["a"] += 1
@@ -598,13 +606,27 @@ def rnd_case(rng, cid, kinds, unit, ndev_max=2, scripts=True, maxz=99):
                 continue                       # configured, never started
             p.append(dict(op="start", d=d))
             idx = rng.choice([0, 0, 0, 7])
+            rejected = False
+            cur_set = p[-2]
             for _ in range(rng.choice([1, 1, 2, 3, 4]) if rng.random() > 0.05 else 0):
+                if rng.random() < 0.1:
+                    # acquire_configure during an acquisition: storage_set on the running device. Accepted settings (same
+                    # metadata and scale, another fresh path) leave it running; rejected ones (a path in a directory that does
+                    # not exist) end the acquisition - the device has to be configured and started again.
+                    npath += 1
+                    rejected = rng.random() < 0.5
+                    c["paths"][npath] = ("nodir_x%d/p%d%s" if rejected else "x%d_p%d%s") % (cid, npath, ext_of(c["devs"][d]))
+                    p.append(dict(cur_set, pid=npath, form=rng.choice(["plain", "file"])))
+                    if rejected and rng.random() < 0.6:
+                        break
                 fr = [rnd_frame(rng, idx + i, align=rng.random() < 0.8) for i in range(rng.randint(1, 3))]
                 idx += len(fr)
                 o = dict(op="append", d=d, frames=fr)
                 if scripts:
                     o["sw"] = rnd_script(rng, maxz)
                 p.append(o)
+            if rejected and rng.random() < 0.5:
+                continue                       # (storage_stop would do nothing: the HAL no longer reports Running)
             if cyc < ncyc - 1 or rng.random() < 0.7:     # only the last acquisition may be ended by close
                 o = dict(op="stop", d=d)
                 if scripts and rng.random() < 0.3:
@@ -635,6 +657,12 @@ def reference_histories(kind, other):
         "close_while_running": [O("open", 0), S(0, 1), O("start", 0), A(0, [0]), O("close", 0)],
         "two_cycles": [O("open", 0), S(0, 1, 1), O("start", 0), A(0, [0]), O("stop", 0), S(0, 2), O("start", 0), A(0, [0, 1]), O("stop", 0), O("close", 0)],
         "restart_after_failure": [O("open", 0), S(0, 1), O("start", 0), A(0, [0]), A(0, [1]), O("stop", 0), S(0, 2), O("start", 0), A(0, [0]), O("stop", 0), O("close", 0)],
+        # acquire_configure during an acquisition: accepted settings keep the device running; rejected ones end the acquisition
+        "set_while_running": [O("open", 0), S(0, 1, 1), O("start", 0), A(0, [0]), S(0, 2, 1), A(0, [1]), O("stop", 0), O("start", 0), A(0, [0]),
+                              O("stop", 0), O("close", 0)],
+        "rejected_set_while_running": [O("open", 0), S(0, 1, 1), O("start", 0), A(0, [0]), S(0, 9, 1), O("stop", 0), S(0, 2, 1), O("start", 0),
+                                       A(0, [0, 1]), O("stop", 0), O("close", 0)],
+        "rejected_set_then_close": [O("open", 0), S(0, 1, 1), O("start", 0), A(0, [0]), S(0, 9, 1), O("close", 0)],
         "two_devices": [O("open", 0), S(0, 1), O("start", 0), A(0, [0]), O("open", 1), S(1, 2), O("stop", 0), O("start", 1), A(0, [1]), A(1, [0]),
                         O("close", 0), A(1, [1]), O("stop", 1), O("close", 1)],
         "two_devices_late_close": [O("open", 0), S(0, 1), O("start", 0), A(0, [0]), A(0, [1]), O("open", 1), S(1, 2), O("start", 1), A(1, [0]), A(0, [2]),
@@ -647,11 +675,28 @@ def reference_histories(kind, other):
     return out
 
 
+def big_case(rng, cid, kind):
+    """One acquisition whose file grows beyond 4 GiB: offsets, links and lengths above 2^32."""
+    c = dict(id=cid, unit=0, fault=None, devs={0: kind}, paths={1: "x%d_big%s" % (cid, ext_of(kind))}, metas={1: METAS[0]}, ops=[], expect=None,
+             origin="bigfile", timeout=300)
+    small = lambda i: rnd_frame(rng, i, align=True)
+    def huge(i):
+        w, h = rng.choice([(40000, 40000), (36000, 44000), (65536, 24000)])
+        return dict(w=w, h=h, ty="u8", pad=(-(96 + w * h)) % 8, id=i, hw=1000 + i, trt=5000 + i, thw=7000 + i, z=True)
+    ops = [dict(op="open", d=0), dict(op="set", d=0, pid=1, form=rng.choice(["plain", "file"]), mid=1, sx=1, sy=1), dict(op="start", d=0)]
+    seq = [[small(0)], [huge(1)], [small(2), small(3)], [huge(4)], [huge(5)], [small(6)], [small(7), small(8)]]
+    for fr in seq:
+        ops.append(dict(op="append", d=0, frames=fr))
+    ops += [dict(op="stop", d=0), dict(op="close", d=0)]
+    c["ops"] = ops
+    return c
+
+
 def make_case(cid, devs, ops, unit, fault=None):
     c = dict(id=cid, unit=unit, fault=fault, devs=dict(devs), paths={}, metas={1: '{"k":1}'}, ops=[dict(o) for o in ops], expect=None, origin="fault")
     for o in c["ops"]:
-        if o["op"] == "set":
-            c["paths"][o["pid"]] = "x%d_p%d%s" % (cid, o["pid"], ext_of(devs[o["d"]]))
+        if o["op"] == "set":    # (path 9 lies in a directory that does not exist: such settings are rejected)
+            c["paths"][o["pid"]] = ("nodir_x%d/p%d%s" if o["pid"] == 9 else "x%d_p%d%s") % (cid, o["pid"], ext_of(devs[o["d"]]))
     return c
 
 
@@ -699,6 +744,8 @@ def model_stage(chk, prop, bdir, thorough):
                                                        NScripts=7 if thorough else 5, NPaths=4 if thorough else 3,
                                                        MaxAppends=3 if thorough and prop == "C14" else 2), RAW_INV, True))
         jobs.append(("RawWriter", "asis_raw", raw_consts(FIXED=0, NDev=2, MaxFaultAt=4), RAW_INV, False))
+        if prop == "C16":
+            jobs.append(("RawWriter", "asis_set_raw", raw_consts(FIX_SET=0, NDev=1, MaxFaultAt=4), RAW_INV, False))
     if prop in ("C15", "C16"):
         if prop == "C15":
             jobs.append(("TiffWriter", "mc_tiff", tiff_consts(NDev=1, NKinds=3, NScripts=5 if thorough else 4, MaxPacket=3 if thorough else 2,
@@ -710,6 +757,8 @@ def model_stage(chk, prop, bdir, thorough):
             jobs.append(("TiffWriter", "mc_tiff2", tiff_consts(NDev=2, NKinds=2, NScripts=2, MaxAppends=1), TIFF_INV, True))
             jobs.append(("TiffWriter", "asis_tiff", tiff_consts(FIX_TIFF=0, NDev=2, MaxAppends=1, NScripts=1, MaxFaultAt=8, Kinds1='{"tiff"}'), TIFF_INV, False))
         jobs.append(("TiffWriter", "asis_sbs", tiff_consts(FIX_SBS=0, Kinds1='{"sbs"}', NScripts=1, MaxAppends=1), TIFF_INV, False))
+        if prop == "C16":
+            jobs.append(("TiffWriter", "asis_set_tiff", tiff_consts(FIX_SET=0, NScripts=1, MaxAppends=1, MaxFaultAt=4), TIFF_INV, False))
         if prop == "C15":
             jobs.append(("TiffWriter", "asis_meta", tiff_consts(FIX_META=0, Kinds1='{"tiff"}', NScripts=1, MaxAppends=1), TIFF_INV, False))
     with cf.ThreadPoolExecutor(max_workers=3) as ex:
@@ -874,6 +923,16 @@ def main(prop, tier):
     all_runs = runs + extra
     nacq = 0
     if prop == "C15":
+        # files beyond 4 GiB - what BigTIFF is for: frames of more than a GiB with all-zero pixels (written sparsely by the
+        # harness' OS seam, so nearly no disk is used), small frames before, between and after them; judged by TiffObs only
+        # (positions in units of 8 bytes; the OS-level events of this run carry 64-bit offsets FileObs cannot hold)
+        big = [big_case(rng, 400000 + i, kind) for i, kind in enumerate(["tiff", "tiff-json"] if thorough else [rng.choice(["tiff", "tiff-json"])])]
+        big_runs = run_cases(exe, big, bdir, "big", nchunks=len(big))
+        nbig = judge.tiff_obs(big_runs)
+        if nbig != len(big):
+            raise Broken("large-file case: %d of %d acquisitions finished and were parsed" % (nbig, len(big)))
+        chk.set("files_beyond_4GiB_parsed", nbig)
+        cleanup(big_runs)
         nacq = judge.tiff_obs(all_runs)
         if nacq < 50:
             raise Broken("vacuous: only %d finished tiff acquisitions were parsed" % nacq)
